@@ -1409,10 +1409,16 @@ def chunk_dispatch(repo: Repo, rep, P: str):
                     reads.append(n)
                 elif isinstance(v_e, ast.Call):
                     other_effect_stores.append(norm(v_e)[:80])
-    writes = [n for n in ast.walk(wf) if isinstance(n, ast.Call) and norm(n.func) in ("self.effect.write_to", "self.effect.read")]
+    d_w = _sd_e(wf)
+
+    def _is_effect_write(n, defs_) -> bool:
+        if not (isinstance(n, ast.Call) and isinstance(n.func, ast.Attribute) and n.func.attr in ("write_to", "read")):
+            return False
+        return norm(_rn_e(n.func.value, defs_)) == "self.effect"          # also through `effect = self.effect`
+    writes = [n for n in ast.walk(wf) if _is_effect_write(n, d_w)]
     if not writes:
         # the effect may be written by a helper the normal form did not reach (a callee picked at run time)
-        writes = [n for mname, mfn in samp.methods.items() for n in ast.walk(mfn) if isinstance(n, ast.Call) and norm(n.func) in ("self.effect.write_to", "self.effect.read")]
+        writes = [n for mname, mfn in samp.methods.items() for n in ast.walk(mfn) if _is_effect_write(n, _sd_e(mfn))]
         if writes and reads:
             rep.inconclusive(f"{P}.R3", f"{rel}:Sampler.specialized_iff_chunks", "effect chunk",
                              "the effect is serialised in a helper that the writer reaches through a computed callee", rel)
